@@ -5,7 +5,9 @@ import (
 	"bytes"
 	"context"
 	"fmt"
+	"strings"
 	"sync"
+	"sync/atomic"
 	"time"
 
 	lime "github.com/takenet/lime-go"
@@ -138,10 +140,19 @@ func serverStages() ([]*c06Send, error) {
 		{"finished", []lime.SessionEncryption{"none"}, []string{newSes, "AUTH"}, "finish"},
 		{"failed", []lime.SessionEncryption{"none"}, []string{`{"state":"new","id":"unexpected"}`}, ""},
 		{"failed-after-established", []lime.SessionEncryption{"none"}, []string{newSes, "AUTH"}, "fail"},
+		// the terminating call itself cannot tell the peer (the peer is not reading, its buffers are full, the
+		// call's context expires): the session is over all the same
+		{"finished", []lime.SessionEncryption{"none"}, []string{newSes, "AUTH"}, "finish-blocked"},
+		{"failed-after-established", []lime.SessionEncryption{"none"}, []string{newSes, "AUTH"}, "fail-blocked"},
 	}
 	for _, buf := range []int{4, 0} {
 		for _, st := range stages {
-			cmem, smem := memconn.Pipe(0)
+			capacity := 0
+			if strings.HasSuffix(st.after, "-blocked") {
+				capacity = 8192
+			}
+			cmem, smem := memconn.Pipe(capacity)
+			var pauseRead int32
 			peer := &lineCounter{}
 			var sidMu sync.Mutex
 			sid := ""
@@ -149,6 +160,9 @@ func serverStages() ([]*c06Send, error) {
 			go func() {
 				r := bufio.NewReader(cmem)
 				for {
+					for atomic.LoadInt32(&pauseRead) == 1 {
+						time.Sleep(200 * time.Microsecond)
+					}
 					line, err := r.ReadBytes('\n')
 					if err != nil {
 						return
@@ -216,6 +230,21 @@ func serverStages() ([]*c06Send, error) {
 				fctx, fcancel := context.WithTimeout(context.Background(), time.Second)
 				_ = sc.FailSession(fctx, &lime.Reason{Code: 1, Description: "scripted"})
 				fcancel()
+			case "finish-blocked", "fail-blocked":
+				atomic.StoreInt32(&pauseRead, 1)
+				time.Sleep(time.Millisecond)
+				fill, fc := context.WithTimeout(context.Background(), time.Second)
+				_ = sc.SendMessage(fill, textMessage("fill", strings.Repeat("x", 8000)))
+				fc()
+				fctx, fcancel := context.WithTimeout(context.Background(), 100*time.Millisecond)
+				if st.after == "finish-blocked" {
+					_ = sc.FinishSession(fctx)
+				} else {
+					_ = sc.FailSession(fctx, &lime.Reason{Code: 1, Description: "scripted"})
+				}
+				fcancel()
+				atomic.StoreInt32(&pauseRead, 0)
+				time.Sleep(3 * time.Millisecond)
 			}
 			time.Sleep(200 * time.Microsecond)
 			ops := tryOps("server", st.name, sc, peer, cmem)
